@@ -24,7 +24,21 @@ def run(op, a):
         pub = CKey(a[0], bool(a[1])).pub
         return [bytes(pub), pub.is_fullyvalid, pub.is_compressed]
     if op == 2:
-        return CKey(a[0], True).sign(a[1])
+        k = CKey(a[0], True)
+        sig = k.sign(a[1])
+        # OpenSSL's nonce is random: for one case in three keep signing until the DER form is shorter
+        # than usual (r or s with leading zero bytes, about 1 signature in 100)
+        if (a[0][-1] + a[1][-1]) % 3 == 0:
+            for _ in range(500):
+                try:
+                    lr = sig[3]
+                    ls = sig[5 + lr]
+                except IndexError:
+                    break
+                if lr < 32 or ls < 32:        # judged by the declared integer lengths, not by the total length
+                    break
+                sig = k.sign(a[1])
+        return sig
     if op == 3:
         # other public-key objects are created before and after and stay alive: an object's answer
         # must depend on its own bytes only
